@@ -368,6 +368,38 @@ class CFG:
                 out.append((bid, b["cond"], b["s"]))
         return out
 
+    def ast_guards(self, node):
+        """Conditions implied by syntactic nesting: inside the then/else branch of an if, a loop body, a ?: arm."""
+        f = self.func
+        out = []
+        child = node
+        for a in f.ancestors(node):
+            k = a["k"]
+            if k == "IfStmt" and a.get("cond") is not None:
+                if a.get("then") is child:
+                    out.extend(implied_atoms(a["cond"], True))
+                elif a.get("else") is child:
+                    out.extend(implied_atoms(a["cond"], False))
+            elif k in ("WhileStmt", "ForStmt") and a.get("cond") is not None and a.get("body") is child:
+                out.extend(implied_atoms(a["cond"], True))
+            elif k == "ConditionalOperator":
+                if a.get("then") is child:
+                    out.extend(implied_atoms(a["cond"], True))
+                elif a.get("else") is child:
+                    out.extend(implied_atoms(a["cond"], False))
+            child = a
+        return out
+
+    def guards(self, node):
+        """All branch outcomes known to hold when node executes: CFG edge dominators plus syntactic nesting."""
+        pos = self.position(node)
+        res = list(self.dominating_conditions(pos)) if pos is not None else []
+        have = {(id(c), p) for c, p in res}
+        for c, p in self.ast_guards(node):
+            if (id(c), p) not in have:
+                res.append((c, p))
+        return res
+
     def dominating_conditions(self, pos):
         """Branch outcomes that hold on every path from entry to pos.
         Returns [(cond node, polarity)]: the edge taken when cond evaluates to `polarity` is an
@@ -510,6 +542,25 @@ class DB:
                     st.append(o)
         return out
 
+    def resolve_virtual(self, cls, mid, _memo={}):
+        """The final overrider of virtual method `mid` for an object of dynamic class `cls` (None if cls is unrelated)."""
+        key = (id(self), cls, mid)
+        if key in _memo:
+            return _memo[key]
+        family = {mid} | self.all_overriders(mid)
+        res = None
+        order = [cls] + self.all_bases(cls)
+        for r in order:
+            rr = self.records.get(r)
+            if not rr:
+                continue
+            hit = [m["id"] for m in rr["methods"] if m["id"] in family]
+            if hit:
+                res = hit[0]
+                break
+        _memo[key] = res
+        return res
+
     def find_method(self, rec, name, nparams=None):
         """Resolve a method by name on rec or the nearest base defining it (declaration lookup)."""
         for r in [rec] + self.all_bases(rec):
@@ -602,14 +653,19 @@ class DB:
                 reach[fid] = (caller, node)
                 work.append(fid)
 
-        def feasible(mid):
-            rec = self.method_decl.get(mid, (None,))[0]
-            if rec is None:
-                f = self.funcs.get(mid)
-                rec = f.rec if f else None
-            if rec is None:
-                return True
-            return rec in inst or bool(self.all_subclasses(rec) & inst)
+        def vtargets(mid):
+            """Final overriders of virtual method mid over the classes instantiated so far."""
+            drec = self.method_decl.get(mid, (None,))[0]
+            out = set()
+            for i in inst:
+                if i not in self.records:
+                    continue
+                if drec is not None and not self.is_subclass(i, drec):
+                    continue
+                t = self.resolve_virtual(i, mid)
+                if t is not None:
+                    out.add(t)
+            return out
 
         for r in roots:
             rid = r.id if isinstance(r, Func) else r
@@ -620,10 +676,14 @@ class DB:
             while work:
                 fid = work.pop()
                 f = self.funcs[fid]
+                base_inits = set()
+                for ini in f.raw.get("inits", []):
+                    if (ini.get("base") or ini.get("delegating")) and isinstance(ini.get("init"), dict):
+                        base_inits.add(strip(ini["init"]).get("id"))
                 for n in f.live_nodes():
                     k = n["k"]
                     if k in ("CXXConstructExpr", "CXXTemporaryObjectExpr"):
-                        if n.get("rec"):
+                        if n.get("rec") and n.get("id") not in base_inits:
                             inst.add(n["rec"])
                         if n.get("f"):
                             add(n["f"], fid, n)
@@ -632,7 +692,7 @@ class DB:
                         if mid is None:
                             continue
                         if n.get("fvirt") and n.get("member") and not n.get("qualified"):
-                            pending.append((fid, n, [mid] + sorted(self.all_overriders(mid))))
+                            pending.append((fid, n, mid))
                         else:
                             add(mid, fid, n)
                         # std::make_unique<T>(...) etc. instantiate T
@@ -666,19 +726,12 @@ class DB:
                                 if t.get("rec"):
                                     for d in self.dtor_targets(t["rec"], virtual=False):
                                         add(d, fid, None)
-            still = []
-            for caller, n, cands in pending:
-                rest = []
-                for c in cands:
-                    if c in reach:
-                        continue
-                    if feasible(c):
+            progressed = False
+            for caller, n, mid in pending:
+                for c in vtargets(mid):
+                    if c not in reach and c in self.funcs:
                         add(c, caller, n)
-                    else:
-                        rest.append(c)
-                if rest:
-                    still.append((caller, n, rest))
-            pending = still
+                        progressed = True
             if not work:
                 break
         return reach, inst
